@@ -252,10 +252,25 @@ def build_harness_asan():
     return rc == 0, out
 
 
-def run_harness(engine, outdir, args, timeout=3000, asan=False):
+TARGET_OVF = os.path.join(BUILD, "target-ovf")
+HARNESS_OVF = os.path.join(TARGET_OVF, "release", "feox-verif-harness")
+
+
+def build_harness_ovf():
+    """the same harness and /repo with integer-overflow checks on (what a debug build of an
+    application does): arithmetic on values a damaged file controls must not panic"""
+    hdir = os.path.join(VERIF, "harness")
+    env = dict(ENV)
+    env["CARGO_TARGET_DIR"] = TARGET_OVF
+    env["RUSTFLAGS"] = "--cfg feoxdb_verif -C overflow-checks=on"
+    rc, out = sh("cargo build --release --offline 2>&1", cwd=hdir, timeout=1800, env=env)
+    return rc == 0, out
+
+
+def run_harness(engine, outdir, args, timeout=3000, asan=False, ovf=False):
     shutil.rmtree(outdir, ignore_errors=True)
     os.makedirs(outdir, exist_ok=True)
-    cmd = [HARNESS_ASAN if asan else HARNESS, engine, "out=" + outdir] + ["%s=%s" % kv for kv in args.items()]
+    cmd = [HARNESS_ASAN if asan else (HARNESS_OVF if ovf else HARNESS), engine, "out=" + outdir] + ["%s=%s" % kv for kv in args.items()]
     env = ENV
     if asan:
         env = dict(ENV)
